@@ -1,5 +1,5 @@
 import RvModel.Gen.Dispatch
-import RvModel.Hand.Dispatch
+import RvModel.Hand.DispatchAll
 import Std.Data.HashMap
 /-
   rvdrv — evaluates one model operation per input line on the `Float` carrier.
